@@ -255,8 +255,8 @@ def run(ctx):
                     'constants)']
     rng = ctx.rng
     batch = [('corpus', s) for _, s in load_corpus()]
-    batch += [('boundary', s) for s in boundary_suite(range(23, 23 + ctx.n(12, 60)), False)]
-    batch += [('boundary', s) for s in boundary_suite(range(23, 23 + ctx.n(4, 60), 1), True)]
+    batch += [('boundary', s) for s in boundary_suite(range(23, 23 + ctx.n(9, 60)), False)]
+    batch += [('boundary', s) for s in boundary_suite(range(23, 23 + ctx.n(2, 60), 1), True)]
     batch += [('requests', gen_scenario(rng, k, 60)) for k in range(ctx.n(26, 1200))]
     batch += [('initiated', gen_initiated_scenario(rng, 40)) for _ in range(ctx.n(10, 400))]
     for i in range(0, len(batch), 160):
